@@ -62,7 +62,8 @@ META = dict(
                       "betweenness_compared": 25000, "twin_compared": 35000,
                       "swap_compared": 50000, "whole_set_compared": 8000,
                       "ccn_wrappers_compared": 1500,
-                      "internal_unsorted_compared": 25000},
+                      "internal_unsorted_compared": 25000,
+                      "dense_compared": 30},
             "thorough": {"pairs_exhaustive": 150000, "pairs_random": 9000,
                          "pairs_unsorted": 70000, "pairs_array": 55000,
                          "pairs_disconnected": 35000,
@@ -1077,6 +1078,73 @@ def random_groups(rng, n):
     return perm[:s1], perm[s1:s1 + s2]
 
 
+def large_dense(ctx, IN, k):
+    """Groups with hundreds of densely linked nodes: neighbour and triangle
+    counts pass 127, 255 (narrow integer accumulators); the count-valued
+    measures and their '_sparse' twins against the definition."""
+    cid = f"dense:{k}"
+    rng = ctx.rng("dense", k)
+    n2 = [135, 160, 270][k % 3] if ctx.thorough else [135, 160][k % 2]
+    n1 = 2
+    n = n1 + n2
+    p = float(rng.choice([0.97, 1.0, 0.99]))
+    A = (rng.random((n, n)) < p).astype(np.int8)
+    A = np.triu(A, 1)
+    A = A + A.T
+    perm = rng.permutation(n)
+    a = [int(x) for x in perm[:n1]]
+    b = [int(x) for x in perm[n1:]]
+    w = gg.pos_weights(rng, n)
+    net = IN(adjacency=A, node_weights=w, silence_level=3)
+    A64 = A.astype(np.int64)
+    cases = [
+        ("cross_degree", lambda: net.cross_degree(a, b),
+         lambda: ref.cross_degree(A64, a, b, False)),
+        ("internal_degree", lambda: net.internal_degree(b),
+         lambda: ref.internal_degree(A64, b, False)),
+        ("nsi_cross_degree", lambda: net.nsi_cross_degree(a, b),
+         lambda: ref.nsi_cross_degree(A64, w, a, b)),
+        ("nsi_cross_local_clustering",
+         lambda: net.nsi_cross_local_clustering(a, b),
+         lambda: ref.nsi_cross_local_clustering(A64, w, a, b)),
+        ("nsi_cross_transitivity", lambda: net.nsi_cross_transitivity(a, b),
+         lambda: ref.nsi_cross_transitivity(A64, w, a, b)),
+        ("number_cross_links", lambda: net.number_cross_links(a, b),
+         lambda: ref.number_cross_links(A64, a, b)),
+        ("number_internal_links", lambda: net.number_internal_links(b),
+         lambda: ref.number_internal_links(A64, b, False)),
+    ]
+    for sfx in ("", "_sparse"):
+        cases += [
+            ("cross_local_clustering" + sfx, lambda s=sfx: getattr(
+                net, "cross_local_clustering" + s)(a, b),
+             lambda: ref.cross_local_clustering(A64, a, b)),
+            ("cross_global_clustering" + sfx, lambda s=sfx: getattr(
+                net, "cross_global_clustering" + s)(a, b),
+             lambda: ref.cross_global_clustering(A64, a, b)),
+            ("cross_transitivity" + sfx, lambda s=sfx: getattr(
+                net, "cross_transitivity" + s)(a, b),
+             lambda: ref.cross_transitivity(A64, a, b))]
+    common = int((A64[a[0]][b][:, None] * A64[np.ix_(b, b)]).sum(axis=0).max())
+    ctx.maxstat("dense_max_common_neighbours", common)
+    for name, lib, want in cases:
+        ok, v = ctx.call(lib)
+        ctx.evals()
+        ctx.count("dense_compared")
+        if not ok:
+            ctx.violation(f"{name}:raises:{type(v).__name__}:large-dense",
+                          {"N": n, "p": p, "exc": repr(v)}, cid)
+            continue
+        wv = want()
+        if not np.allclose(np.asarray(v, float), np.asarray(wv, float),
+                           rtol=1e-9, atol=1e-12):
+            ctx.violation(f"{name}:ne-definition:large-dense",
+                          {"N": n, "group_sizes": [n1, n2], "p": p,
+                           "lib": np.ravel(v)[:4], "ref": np.ravel(wv)[:4]},
+                          cid)
+    ctx.nontrivial(("dense", n, p, k))
+
+
 def run(ctx):
     from pyunicorn.core.interacting_networks import InteractingNetworks as IN
     import warnings
@@ -1086,6 +1154,12 @@ def run(ctx):
     if bad:
         raise RuntimeError(f"reference self-test failed: {bad}")
     ctx.count("ref_selftest_passed")
+
+    # 0. a few large dense networks (counts beyond 8-bit ranges)
+    for k in range(12 if ctx.thorough else 3):
+        if ctx.mine(k) and ctx.want(f"dense:{k}"):
+            with ctx.guard(300):
+                large_dense(ctx, IN, k)
 
     # 1. random networks with random groups, and the wrappers (first, so
     # that a loaded machine cannot starve them; capped) -------------------
